@@ -38,6 +38,7 @@ import (
 	"github.com/ozontech/seq-db/zzverif/vfrac"
 	"github.com/ozontech/seq-db/zzverif/vlib"
 	"github.com/ozontech/seq-db/zzverif/vsched"
+	"github.com/ozontech/seq-db/zzverif/vsync"
 )
 
 func c07Doc(i int) refdb.Doc {
@@ -825,6 +826,59 @@ func c07Scenarios() []c07Scenario {
 		return w, bodies, func() { w.finalCheck(listSearch(get, 1), listFetch(get), true) }
 	}})
 
+	// ---- H10: one request visits a bigger active-type fraction and then the current one while a bulk is in flight
+	// there. Per-request scratch state (the pooled inversion table LID -> position) of the first visit is what the
+	// second visit gets back from the pool (vsync.Pool: LIFO, emptied before every execution), so anything the
+	// second visit relies on being zero / reset is exercised with the first visit's contents in it.
+	res = append(res, c07Scenario{"H10 reader over a bigger fraction, then the current one with a bulk in flight", func() (*c07World, []func(), func()) {
+		w := newC07World()
+		ai := frac.VerifNewIndexer(16)
+		fp := newFP(ai, 64*consts.MB)
+		var wg vfrac.WG
+		mkFrac := func(name string, idx ...int) *frac.Active {
+			a := fp.NewActive(w.dir + "/" + name)
+			docs := c07Bulk(idx...)
+			w.submit(docs)
+			d, m := vfrac.BuildBulk(docs, 1)
+			wg.Add(1)
+			if err := a.Append(d, m, &wg); err != nil {
+				panic(err)
+			}
+			for ai.VerifProcessOne() {
+			}
+			w.acked = append(w.acked, docs...)
+			w.cleanup = append(w.cleanup, a.Suicide)
+			return a
+		}
+		// arrival order chosen so that in A the third document is the newest: slot 3 of A's inversion table holds
+		// position 1, a valid position in B, whose third LID is the in-flight document
+		fa := mkFrac("seq-db-H10A", 0, 2, 3, 1)
+		fb := mkFrac("seq-db-H10B", 6, 8)
+		second := c07Bulk(7)
+		w.submit(second)
+		var written atomic.Bool
+		get := func() List { return List{fa, fb} }
+		bodies := []func(){
+			func() {
+				d, m := vfrac.BuildBulk(second, 1)
+				wg.Add(1)
+				if err := fb.Append(d, m, &wg); err != nil {
+					w.fail("append error: %v", err)
+					wg.Done()
+				} else {
+					w.ack(second)
+				}
+				written.Store(true)
+			},
+			indexerLoop(ai, func() bool { return written.Load() }),
+			func() { w.readerPass("reader", seqSearch(get), seqFetch(get)) },
+		}
+		return w, bodies, func() {
+			wg.Wait()
+			w.finalCheck(seqSearch(get), seqFetch(get), false)
+		}
+	}})
+
 	// ---- H4: cache eviction under readers of a sealed fraction ----
 	res = append(res, c07Scenario{"H4 two readers on a sealed fraction + cleaner passes (tiny cache)", func() (*c07World, []func(), func()) {
 		w := newC07World()
@@ -956,6 +1010,9 @@ func c07Handle(raw json.RawMessage) any {
 	seenSig := map[string]bool{}
 	execsDone := 0
 	mk := func() []func() {
+		// pooled objects (sync.Pool -> vsync.Pool LIFO lists under the scheduler, incl. bytespool's size classes)
+		// must not travel from one execution to the next: a replayed schedule sees the buffers the explored one saw
+		vsync.ResetPools()
 		w, bodies, f := sc.mk()
 		world, final = w, f
 		// the final check runs as the last step of thread 0's life? No: after all threads ended, outside the scheduler.
